@@ -200,6 +200,14 @@ func run(c *rig.Ctx) {
 	}
 	c.Part("sequences", nseq, func(i int64, r *rig.Rng) {
 		m := rig.MustNew(rom, rig.Opts{})
+		if i%3 == 2 {
+			// an OAM DMA transfer is in flight while the keys are read (JOYP is not its business)
+			m.Mem.Write(0xff46, 0xc1)
+			for t := 0; t < 3+int(i%50); t++ {
+				m.Mem.EndMachineCycle()
+			}
+			c.Count("sequences_during_dma", 1)
+		}
 		cur := jstate{}
 		x := i
 		var hist []string
